@@ -1503,6 +1503,16 @@ func (rl *Shell) dumpVariables() {
 	if rl.Iterations.IsSet() {
 		for _, variable := range variables {
 			value := rl.Config.Vars[variable]
+
+			// Booleans are written on/off in inputrc files:
+			// the parser reads anything else as off.
+			if enabled, isBool := value.(bool); isBool {
+				value = "off"
+				if enabled {
+					value = "on"
+				}
+			}
+
 			fmt.Printf("set %s %v\n", variable, value)
 		}
 	} else {
